@@ -141,6 +141,14 @@ func Compress(compression string, raw []byte, custom map[string]func([]byte) ([]
 	case "":
 		return raw, nil
 	case "zstd":
+		// WithZeroFrames: empty content still gets a (13-byte) frame, as streaming encoders produce
+		e, err := zstd.NewWriter(nil, zstd.WithZeroFrames(true))
+		if err != nil {
+			return nil, err
+		}
+		defer e.Close()
+		return e.EncodeAll(raw, nil), nil
+	case "zstd-noframe-when-empty":
 		e, err := zstd.NewWriter(nil)
 		if err != nil {
 			return nil, err
